@@ -60,6 +60,13 @@ spec fn refs_wellformed(e: RawLexiconEntry) -> bool {
 spec fn max0_of(r: LexiconReader) -> int { if r.num_system == usize::MAX { r.entries@.len() as int } else { r.num_system as int } }
 spec fn max1_of(r: LexiconReader) -> int { if r.num_system == usize::MAX { 0 } else { r.entries@.len() as int } }
 
+impl RawLexiconEntry {
+//@extract sudachi/src/dic/build/lexicon.rs :: impl RawLexiconEntry :: fn should_index
+//@  ret r
+//@  spec
+        ensures r == (self.left_id >= 0),
+//@end
+}
 impl LexiconReader {
 //@extract sudachi/src/dic/build/lexicon.rs :: impl LexiconReader :: fn validate_wid
 //@  rw R12 1 custom
@@ -119,7 +126,7 @@ impl LexiconReader {
                 decreases e.word_structure@.len() - __iw
 //@  before if e.left_id >
             proof { assert(*e == self.entries@[__ie - 1]); assert(refs_wellformed(*e)); }
-//@  before ctx.add_line(1);
+//@  before ctx.add_line(1); #last
             proof { assert(entry_valid(*e, self.max_left, self.max_right, max_0 as int, max_1 as int)); }
 //@end
 }
